@@ -117,6 +117,12 @@ def install(reg):
 
     reg.install_std_specs()
     import z3
+    def _final(eng, name):
+        from vlib.builtins_model import strval
+        from vlib.pyvc import NONE
+        return eng.final_locals.get(strval(name), NONE)
+    reg.spec_funcs["final"] = _final
+    reg.elem_preds["is_chunked"] = lambda eng, x: eng.force(x).t == z3.StringVal("chunked")
     reg.elem_preds["no_crlf"] = lambda eng, x: z3.And(z3.Not(z3.Contains(x.t, z3.StringVal("\r"))), z3.Not(z3.Contains(x.t, z3.StringVal("\n"))))
     reg.add(FuncContract("parser.get_header_lines", params={"header": Bytes}, returns=ListOf(Bytes),
         raises=["parser.ParsingError"],
@@ -145,6 +151,8 @@ def install(reg):
         raises=["parser.ParsingError", "parser.TransferEncodingNotImplemented"],
         ensures=[
             ("C01-chunked-only-on-1.1", "implies(self.chunked, self.version == '1.1')"),
+            # the body is decoded as chunked only when every transfer-coding the client listed is `chunked` (anything else is 501: the
+            # server does not know how the bytes after the head are framed)
             ("C01-expect-continue-only-on-1.1", "implies(self.expect_continue, self.version == '1.1')"),
             ("C01-content-length-next-to-chunked-closes", "implies(cl_popped(), self.connection_close and self.chunked)"),
             ("C01-transfer-encoding-on-non-1.1-closes", "implies(self.version != '1.1' and 'TRANSFER_ENCODING' in self.headers, self.connection_close)"),
@@ -164,6 +172,10 @@ def install(reg):
                   "self.proxy_scheme", "self.proxy_netloc", "self.url_scheme"],
         check_invariant=False, props=["inline-on-constants"]))
 
+    # the body is decoded as chunked only when every transfer-coding the client listed is `chunked`: a listed coding that survives the
+    # validation loop IS "chunked" (anything else is 501 -- the server does not know how the bytes after the head are framed)
+    reg.funcs["parser.HTTPRequestParser.parse_header"].loops[1].body_post = [
+        ("C01-a-listed-transfer-coding-other-than-chunked-is-refused", "encoding == 'chunked'")]
     reg.add(FuncContract("parser.HTTPRequestParser.close"))
     reg.inline.add("parser.HTTPRequestParser.__init__")
     reg.add(FuncContract("parser.HTTPRequestParser.received", params={"data": Bytes}, returns=Int,
